@@ -4,8 +4,8 @@
    ceiling ...); the theorems are stated on VALUES: e.g. for Abs/DNeg "the value of abs(a) equals
    minus the value of a".  They use the query soundness theorems of C34 (AssumeProofs*.v), so an
    unsound query would show up here as an unprovable rule.
-   The Pow-of-Pow rule is refuted (witness sqrt(x^3), x = -1).  Log, Max/Min and simplify_pow
-   have no theorem (values outside Q(i) / not attempted): correspondence and oracle only. *)
+   Pow-of-Pow: RefinePow.v; Max/Min: RefineMaxMin.v.  Log and simplify_pow have no theorem (values outside
+   Q(i)): correspondence and oracle only. *)
 From SE Require Import Assume.AssumeSem Num.NumQi Assume.RefineModel
   Assume.AssumeProofs Assume.AssumeProofs2 Assume.AssumeProofs3 Assume.C34Theorems.
 From Coq Require Import QArith Qabs Qround List ZArith Bool Lia Lqa.
@@ -197,20 +197,22 @@ Section Rules.
   Qed.
 End Rules.
 
-(* ------------------------------------------------------------------ Pow of Pow: refuted *)
-(* (x^3)^(1/2) with x real is rewritten to abs(x)^(3/2); at x = -1 the first is I, the second is 1 *)
+(* ------------------------------------------------------------------ Pow of Pow *)
+(* (x^3)^(1/2) with x real used to be rewritten to abs(x)^(3/2) (at x = -1: I versus 1).  After the repair
+   (commit ef8465f) the abs branch needs an even integer inner exponent: the rule keeps this node. *)
 Definition e_sqrt_x3 : expr := EPow (EPow sx (ENum (NInt 3))) (ENum (NRat 1 2)).
 Definition e_abs_x_32 : expr := EPow (EF1 TC_Abs sx) (ENum (NRat 3 2)).
-Theorem pow_rule_abs_refuted : exists st A rho,
+Example pow_rule_odd_inner_exponent_kept : exists st A rho,
   assum_of st = Ok A /\ osat rho st /\
-  refine_pow A (EPow sx (ENum (NInt 3))) (ENum (NRat 1 2)) = DAbs /\
+  refine_pow A (EPow sx (ENum (NInt 3))) (ENum (NRat 1 2)) = DKeep /\
+  refine_pow A (EPow sx (ENum (NInt 2))) (ENum (NRat 1 2)) = DAbs /\
   denote rho e_sqrt_x3 = Some (VC (0, 1)) /\ denote rho e_abs_x_32 = Some (VC (1, 0)).
 Proof.
   eexists st_real_x, _, (rho_const (-1 # 1, 0)). split; [vm_compute; reflexivity|].
-  split; [exact (sat_real_x (-1 # 1))|]. split; [vm_compute; reflexivity|]. split; vm_compute; reflexivity.
+  split; [exact (sat_real_x (-1 # 1))|]. repeat split; vm_compute; reflexivity.
 Qed.
 
-(* instances of the rule that are right: (x^2)^(1/2) -> abs(x) at x = -3, (x^2)^(3/2) at x = -2 *)
+(* instances of the rule: (x^2)^(1/2) -> abs(x) at x = -3, (x^2)^(3/2) at x = -2 *)
 Example pow_rule_abs_even_instances :
   denote (rho_const (-3 # 1, 0)) (EPow (EPow sx (ENum (NInt 2))) (ENum (NRat 1 2))) = Some (VC (3, 0)) /\
   denote (rho_const (-2 # 1, 0)) (EPow (EPow sx (ENum (NInt 2))) (ENum (NRat 3 2))) = Some (VC (8, 0)).
